@@ -91,7 +91,7 @@ def csv_rule(draw, escapes=True, quotes=False, relative=False, tag_only_p=2):
     # hand-written CSV files often carry a blank after the comma (`NETFLIX, Netflix, Subscriptions`): the cell is then ' Netflix'
     pad = draw(st.sampled_from([('', '')] * 5 + [(' ', ''), (' ', ' '), ('', '  ')]))
     P = lambda x: (pad[0] + x + pad[1]) if x else x
-    return {'pattern': pat, 'mods': mods, 'merchant': P(draw(st.sampled_from(['Netflix', 'Uber', 'Big Box', 'Amazon', "O'Neil's", 'A, Inc', 'Store #12', 'C# Shop']))),
+    return {'pattern': pat, 'mods': mods, 'merchant': P(draw(st.sampled_from(['Netflix', 'Uber', 'Big Box', 'Amazon', "O'Neil's", 'A, Inc', 'Store #12', 'C# Shop', 'Amazon [Prime]', 'Toys [R] Us']))),
             'category': '' if tag_only else P(draw(st.sampled_from(['Food', 'Subscriptions', 'Shopping', 'Bills & Utilities', 'Rental #1', 'Rental #2']))),
             'subcategory': P(draw(st.sampled_from(['', 'Streaming', 'Online', 'Rideshare', 'Unit #1', 'Unit #2']))), 'tags': tags}
 
